@@ -28,7 +28,7 @@ for log in logs:
         if m:
             observed.setdefault(m.group(1), {})[m.group(2)] = (m.group(3) or m.group(4))[:160]
 
-WAVE = {"m1": "1 (plain)", "m2": "1 (plain)", "m3": "2 (needs something specific)", "m4": "2 (needs something specific)", "m5": "3 (adversarial: told what kind of harness to evade)", "m6": "3 (adversarial: told what kind of harness to evade)", "m7": "4 (adversarial: told also what round 3 added, hash collisions and 4 GiB inputs excluded)", "m8": "4 (adversarial: told also what round 3 added, hash collisions and 4 GiB inputs excluded)", "m9": "5 (adversarial, 6 properties: told also what round 4 added)", "m10": "5 (adversarial, 6 properties: told also what round 4 added)", "m11": "6a (plain: property text only, one change per property, 12 properties)", "m12": "6b (adversarial: told everything of DESIGN.md 10.2-10.4 in general terms, 12 properties)"}
+WAVE = {"m1": "1 (plain)", "m2": "1 (plain)", "m3": "2 (needs something specific)", "m4": "2 (needs something specific)", "m5": "3 (adversarial: told what kind of harness to evade)", "m6": "3 (adversarial: told what kind of harness to evade)", "m7": "4 (adversarial: told also what round 3 added, hash collisions and 4 GiB inputs excluded)", "m8": "4 (adversarial: told also what round 3 added, hash collisions and 4 GiB inputs excluded)", "m9": "5 (adversarial, 6 properties: told also what round 4 added)", "m10": "5 (adversarial, 6 properties: told also what round 4 added)", "m11": "6a (plain: property text only, one change per property, 12 properties)", "m13": "6c (adversarial, 6 properties, 8-minute budget: told also what round 6b added)", "m12": "6b (adversarial: told everything of DESIGN.md 10.2-10.4 in general terms, 12 properties)"}
 
 NOTES = {
     "C01-m5": "NOT CAUGHT, stated limit (DESIGN.md 6): wrong verdict only on a 32-bit fingerprint collision with the previously accepted input",
@@ -37,6 +37,12 @@ NOTES = {
     "C09-m6": "quick tier cannot reach it (needs an input of 4 GiB); caught by the THOROUGH tier of C09 (one path beyond 4 GiB per family; confirmed by replaying that case against the change: sig big:normalized_segments)",
     "C05-m7": "quick tier cannot reach it (needs a buffer above 16 MiB); caught by the THOROUGH tier of C05 (17 MiB+5 / 33 MiB+1 values; confirmed by replaying that case against the change: sig set_query:query-differs)",
     "C20-m5": "not a violation of C20 as stated: normalized_segments() is not among the accessors the statement lists and allocates by design beyond 16 live segments; the checks do not constrain it",
+    "C07-m12": "MISSED at first contact (the HostCase near miss skipped IP-literals); caught since HostCase applies inside '[...]' too (DESIGN.md 10.5)",
+    "C09-m12": "MISSED at first contact (no internal iteration: rev().collect() goes through next_back, not rfold); caught since fold/rfold/try_fold/try_rfold/for_each are read on every case (DESIGN.md 10.5)",
+    "C10-m12": "MISSED at first contact (the unsafe public constructor iri::PathMut::new was never called); caught since every embedded history is replayed through it on a plain Vec<u8> (DESIGN.md 10.5)",
+    "C14-m12": "MISSED at first contact (only text tokens were offered to Deserialize); caught since ~50 non-text tokens per case are offered to every owned type (DESIGN.md 10.5)",
+    "C13-m12": "an ORDER mistake on one cross-type route (UriRefBuf ? &Uri): C08's cross-type block is where it belongs and catches it; C13's statement (embedding, conversions) is not violated by it",
+    "C19-m12": "the decoded views are wrong because RiRef::suffix hands back the wrong query/fragment: that is C16's subject (caught there); C19's own views of the value's real components stay faithful",
     "C14-m8": "a reference -> full-value conversion (TryFrom<&UriRef> for &Uri ...) is refused for schemes of 65 535 bytes and more: that is C13's subject (caught there), not one of C14's textual routes",
 }
 
@@ -78,6 +84,12 @@ for d in sorted(glob.glob(os.path.join(ROOT, "seeded", "C*-m*"))):
     rp = os.path.join(d, "AGENT_README.md")
     readme = open(rp).read() if os.path.exists(rp) else ""
     title = readme.strip().splitlines()[0].lstrip("# ").strip() if readme.strip() else key
+    if re.match(r"^C\d+b? seeded change$", title):
+        for l in readme.splitlines():
+            if re.match(r"\s*-\s*\**Change", l):
+                title = key.replace("-", " / ") + " - " + re.sub(r"^\s*-\s*\**Change\**\s*", "", l).lstrip(":( ").strip()
+                break
+    title = re.sub(r"^C(\d+)b? (seeded change|seed): ", lambda m_: f"C{m_.group(1)} / {m} - ", title)
     mp = os.path.join(d, "meta.json")
     old = json.load(open(mp)) if os.path.exists(mp) else {}
     res = matrix.get(key, old.get("checks_run", {}))
